@@ -18,6 +18,7 @@ pub mod mon_c11;
 pub mod mon_recovery;
 pub mod mon_c12;
 pub mod mon_c13;
+pub mod mon_c14;
 pub mod net;
 pub mod rec;
 pub mod run;
@@ -183,5 +184,6 @@ pub fn registry() -> Vec<Property> {
         assumptions: &["allowances: transmission mode other than Normal (PTO probe, MTU probe, path validation) and the first packet after a declared loss"],
         subs: { let mut v = comp::c10_cc::subs(); v.extend(mon_c10::subs()); v },
         shards: 0,
-    }]
+    },
+    mon_c14::property()]
 }
